@@ -204,9 +204,14 @@ def run(ctx):
                  "account": 1, "interval": [3, 4], "testnet": True}, False))
     if ctx.thorough:
         scs.append(({"op": "paper", "root": dict(rts[2], testnet=True), "account": 2**31 - 2, "interval": [0, 2]}, False))
-    cases = []
-    for sc, d2 in scs:
-        cases += enumerate_cases(sc, d2, stats)
+    def enumerate_all():
+        st = {"impl_only_calls": 0, "positions": 0}
+        out = []
+        for sc, d2 in scs:
+            out += enumerate_cases(sc, d2, st)
+        return out, st
+    from ..core import isolated
+    cases, stats = isolated(enumerate_all)     # recording runs the implementation: done in a child, the parent stays pristine
     agg = ctx.product("prf-answers", cases, execute, chunk=8)
     hits = [x["impl_hits"] for x in agg["x"]]
     if hits and not any(hits):
